@@ -880,7 +880,9 @@ impl<'a, F: Float, K: 'a + Permutable<F>> SolverState<'a, F, K> {
 
             let (mut i, mut j, is_optimal) = self.select_working_set();
             if is_optimal {
+                // reconstruct the whole gradient, then check optimality on all variables
                 self.reconstruct_gradient();
+                self.nactive = self.ntotal();
                 let (i2, j2, is_optimal) = self.select_working_set();
                 if is_optimal {
                     break;
